@@ -2,6 +2,7 @@ import Gbo.Proofs.FillQueue
 import Gbo.Proofs.Divide
 import Gbo.Proofs.Links
 import Gbo.Proofs.SweepInv
+import Gbo.Proofs.SweepKeeps
 /-
   C13 — the sweep yields a planar subdivision.  Proved here, for ALL inputs: the queue-filling clause
   (`fill_queue` creates exactly one mutually linked pair per non-degenerate input edge, the left event
@@ -136,6 +137,14 @@ theorem C13_links_preserved (ar : Arith) (cfg : Cfg) (st st' : SwSt) (se1 se2 r 
     `divide_segment` with its bump and its left/right swap). -/
 theorem C13_subdivide_links (ar : Arith) (cfg : Cfg) (a b : MPoly) (op : Op) (sb cb : BBox) (sw : SweepOut)
     (h : subdivide ar cfg (fillQueue a b op).fq sb cb op = .ok sw) : MutualLinks sw.arena :=
-  subdivide_preserves mutualLinks_stable ar cfg _ sb cb op sw h (C13_links_initial a b op)
+  subdivide_preserves ar (mutualLinks_stable ar) cfg _ sb cb op sw h (C13_links_initial a b op)
+
+/-- **Whole sweep, every input, every arithmetic:** the two events of every sub-segment carry the same operand
+    flag and the same contour id (new events made by `divide_segment` inherit them from the divided segment),
+    and no event of the queue is ever removed or moved. -/
+theorem C13_subdivide_pair_flags (ar : Arith) (cfg : Cfg) (a b : MPoly) (op : Op) (sb cb : BBox) (sw : SweepOut)
+    (h : subdivide ar cfg (fillQueue a b op).fq sb cb op = .ok sw) :
+    LinkedFlags sw.arena ∧ Keeps (fillQueue a b op).fq.arena sw.arena :=
+  ⟨subdivide_linkedFlags ar cfg _ sb cb op sw h (C13_fillQueue a b op).1, subdivide_keeps ar cfg _ sb cb op sw h⟩
 
 end Gbo.Props
